@@ -265,8 +265,9 @@ def lget (eon : Bool) (f : Flat) : Nat → Nat → Key → Option Nat
           (if suffixOf f p == rest then f.values[valuePos f p]? else none)
         else lget eon f fuel (childNodeID f p) rest
 
-/-- `Get(key)` on the encoded trie -/
-def loudsGet (eon : Bool) (f : Flat) (key : Key) : Option Nat := lget eon f (f.height + 1) 0 key
+/-- `Get(key)` on the encoded trie (every level walked consumes at least one key byte:
+`for depth = 0; depth < len(key); depth++`) -/
+def loudsGet (eon : Bool) (f : Flat) (key : Key) : Option Nat := lget eon f (key.length + 1) 0 key
 
 /-- in-order walk over the flat vectors with the same position formulas the iterator uses
 (`firstLabelPos`, `nodeSize`, `childNodeID`, `valuePos`, `isEndOfNode`, prefix/suffix lookup);
